@@ -161,11 +161,43 @@ theorem lookup_hextend_untouched (m n : List (List α × β)) (p : List α) (hn 
     simp only [List.foldl]
     rw [ih _ (fun e he => hn e (List.mem_cons_of_mem _ he)), filter_compat_hinsert m e.1 p e.2 (hn e (by simp))]
 
+/-! ## `filter` and `prepend` (what a qualified wildcard / a schema prefix uses) keep keys distinct and exact names stable -/
+
+theorem hfilter_keysNodup (m : List (List α × β)) (p : List α) (hk : KeysNodup m) : KeysNodup (hfilter m p) := by
+  unfold KeysNodup hfilter at *
+  exact List.Nodup.sublist (List.Sublist.map _ List.filter_sublist) hk
+
+theorem hprepend_keysNodup (m : List (List α × β)) (h : List α) (hk : KeysNodup m) : KeysNodup (hprepend m h) := by
+  unfold KeysNodup hprepend at *
+  rw [List.map_map]
+  have : (fun e : List α × β => h ++ e.1) = (fun k => h ++ k) ∘ (·.1) := rfl
+  show (List.map ((fun e : List α × β => (h ++ e.1, e.2).1)) m).Nodup
+  simp only
+  rw [this, ← List.map_map]
+  exact List.Pairwise.map (fun k => h ++ k) (fun a b hab hc => hab (List.append_cancel_left hc)) hk
+
+/-- a binding kept by `filter` is still what its exact name denotes -/
+theorem lookup_hfilter_exact (m : List (List α × β)) (p k : List α) (v : β) (hk : KeysNodup m) (h : (k, v) ∈ m)
+    (hp : prefixCompat p k = true) : lookup (hfilter m p) k = some (k, v) :=
+  lookup_exact (hfilter m p) k v (hfilter_keysNodup m p hk) (by unfold hfilter; exact List.mem_filter.mpr ⟨h, hp⟩)
+
+/-- after `prepend h`, the full path `h ++ k` denotes the binding `k` denoted -/
+theorem lookup_hprepend_exact (m : List (List α × β)) (h k : List α) (v : β) (hk : KeysNodup m) (hm : (k, v) ∈ m) :
+    lookup (hprepend m h) (h ++ k) = some (h ++ k, v) :=
+  lookup_exact (hprepend m h) (h ++ k) v (hprepend_keysNodup m h hk)
+    (by unfold hprepend; exact List.mem_map.mpr ⟨(k, v), hm, rfl⟩)
+
 /-- non-vacuity: the context has the table `t`, and `s.t`; the query defines a CTE `t` -/
 example :
     let base : List (List String × Nat) := [(["t"], 1), (["s", "t"], 2), (["u"], 3)]
     let ctes : List (List String × Nat) := [(["t"], 10)]
     lookup (hextend base ctes) ["t"] = some (["t"], 10) ∧ lookup (hextend base ctes) ["u"] = some (["u"], 3) ∧
       lookup (hextend base ctes) ["s", "t"] = some (["s", "t"], 2) := by decide
+
+/-- non-vacuity for `filter` / `prepend`: `s.t` survives the filter on `s` (and `t`, `u` do not); after prepending `db` the full path resolves -/
+example :
+    let base : List (List String × Nat) := [(["t"], 1), (["s", "t"], 2), (["u"], 3)]
+    hfilter base ["s"] = [(["s", "t"], 2)] ∧ lookup (hfilter base ["s"]) ["s", "t"] = some (["s", "t"], 2) ∧
+      lookup (hprepend base ["db"]) ["db", "u"] = some (["db", "u"], 3) := by decide
 
 end Qrlew.C15
